@@ -82,7 +82,22 @@ class Ctx:
         return self.tier == "quick"
 
     def n(self, quick, thorough):
+        if getattr(self, "search_mode", False):
+            return min(thorough, max(4 * quick, quick + 1))
         return quick if self.tier == "quick" else thorough
+
+    def widen(self, run):
+        """a tie broke and the regular run found no failing input: run the generators again on a fresh random stream and
+        four times as many cases (bounded by the thorough size); only violations found are kept"""
+        n_obl, broken = len(self.obligations), list(self.broken)
+        self.search_mode = True
+        self.rng = self.rng.child("search")
+        try:
+            run(self)
+        finally:
+            self.search_mode = False
+            del self.obligations[n_obl:]
+            self.broken = broken
 
 
 def load_findings(pid):
